@@ -47,7 +47,7 @@ TYPES = {
     'uint': ('uint', [0, 1, 7, 2 ** 64 - 1, 2 ** 32], [None, 0, 3]),
     'float': (float, [0.0, -0.0, 1.5, -2.25, 1e308, 5e-324, float('inf'), 3, -7], [None, 1.5, 0.0]),
     'bool': (bool, [True, False, 0, 1, 2, 4, 255], [None, False, True]),
-    'obj': ('obj', [None, 0, 'x', (1, 2), 3.5, False, ''], [None, 'dflt', 0]),
+    'obj': ('obj', [None, 0, 'x', (1, 2), 3.5, False, ''], [None, 'dflt', 0, str]),     # also a default that is itself a callable object
     'enum': (Color, [Color.R, Color.G, Color.B], [None, Color.B]),
     'npfloat': (numpy.float64, [numpy.float64(1.5), numpy.float64(-0.0), numpy.float64(3.0)], [None, numpy.float64(2.5)]),
     'str': (str, ['', 'a', 'xyz'], [None, 'd']),
